@@ -1,4 +1,5 @@
 SPECIFICATION Spec
 CONSTANTS MaxEdits = 2
+  Exhaustive = FALSE
 INVARIANT Emit
 CHECK_DEADLOCK FALSE
